@@ -46,6 +46,14 @@ Poll(snap) ==
     /\ polls' = polls + 1
     /\ UNCHANGED <<inbox, sent, frames, nframes>>
 
+\* the watcher is stopped and a new one is started on the same topic (a store is closed and opened again on the same
+\* instance; the adapter keeps one topic object per name): the new watcher has told its reader nothing yet, so whoever
+\* is on the topic is reported to it as joining
+Rewatch ==
+    /\ polls < MaxPolls /\ (members # {} \/ events # <<>>)
+    /\ members' = {} /\ events' = <<>>
+    /\ UNCHANGED <<polls, inbox, sent, frames, nframes>>
+
 Publish(p) ==
     /\ sent < MaxMsgs
     /\ sent' = sent + 1
@@ -60,6 +68,7 @@ Frame(k) ==
     /\ UNCHANGED <<members, events, polls, inbox, sent>>
 
 Next == \/ \E snap \in UNION {[1..n -> Peers] : n \in 0..(Cardinality(Peers) + 1)} : Poll(snap)
+        \/ Rewatch
         \/ \E p \in Peers \cup {Self} : Publish(p)
         \/ \E k \in FrameKinds : Frame(k)
 
